@@ -1139,6 +1139,19 @@ TABLE_CORPUS = [
 ]
 
 
+# (cells, lattice cells): AssertionError (lattice cell without a surface),
+# RecursionError (cycles), KeyError (unknown cell), AttributeError (complement
+# of a complement of a lattice cell)
+FAULT_TABLES = [
+    ({3: '1', 5: '#3', 6: '#5'}, (5,)),
+    ({1: '#2', 2: '#1 3'}, ()),
+    ({1: '1 #1', 2: '#1'}, ()),
+    ({1: '#9 2', 2: '#1'}, ()),
+    ({5: '1.1 2', 6: '#5', 7: '#6 3'}, (5,)),
+    ({5: '1 2', 6: '4 #5', 7: '#6'}, (5,)),
+]
+
+
 def gen_table(rng, facets=False):
     '''acyclic table: cell k may reference cells listed before it'''
     n_cells = rng.randint(2, 5)
@@ -1172,15 +1185,25 @@ def add_facets(rng, e):
 def run_complement(res, rng, n_tab):
     cases, meta = [], []
     loop_cases, loop_meta = [], []
-    for i in range(len(TABLE_CORPUS) + n_tab):
+    corpus = list(TABLE_CORPUS)
+    # the error branches of pot_complement, every dictionary order and target
+    # (model tie and hand-over check only)
+    for ftexts, flat in FAULT_TABLES:
+        for perm in itertools.permutations(ftexts):
+            for tgt in ftexts:
+                corpus.append(({cid: ftexts[cid] for cid in perm}, flat, tgt,
+                               None))
+    for i in range(len(corpus) + n_tab):
         expected = None
-        if i < len(TABLE_CORPUS):
+        if i < len(corpus):
             # hand-written tables: facets, '+', leading zeros, lattice cell
-            ctexts, clat, target, expected = TABLE_CORPUS[i]
+            ctexts, clat, target, expected = corpus[i]
             ids = order = list(ctexts)
-            texts, lattice, fault = dict(ctexts), set(clat), None
+            texts, lattice = dict(ctexts), set(clat)
+            fault = None if expected is not None else 'fault-corpus'
             exprs = {cid: c11_refparse.parse(t) for cid, t in texts.items()}
-            res.count('complement:corpus')
+            res.count('complement:corpus' if expected is not None
+                      else 'complement:fault-corpus')
         else:
             ids, exprs = gen_table(rng, facets=i % 3 == 0)
             lattice = {cid for cid in ids[:-1] if rng.random() < 0.1}
